@@ -265,6 +265,9 @@ func cmdRun(args []string) int {
 			}
 		}
 	}
+	if *only != "" {
+		os.Setenv("VERIF_PARTIAL", "1")
+	}
 	return report(prop, *tier, seed, hs, results, files, !*noReplay, time.Since(t0), loadWall, *verbose)
 }
 
